@@ -70,6 +70,8 @@ def cases(tier, seed):
                         "kind": "composite", "members": list(sub),
                         "tier": tier})
     out.append({"id": "rigidcluster", "kind": "rigid", "tier": tier})
+    out.append({"id": "rigidcluster:pose-histories", "kind": "rigidhist",
+                "tier": tier})
     out.append({"id": "composite:nested", "kind": "nested", "tier": tier})
     out.append({"id": "points:single-point-forms", "kind": "single"})
     out.append({"id": "points:numeric-types-and-mixes", "kind": "numtypes"})
@@ -588,6 +590,92 @@ def _run_rigid(case, ck):
     return digest(*acc)
 
 
+RIGID_OPS = ["t-elem", "t-inplace-add", "t-assign", "r-elem", "r-slice",
+             "r-assign", "add-member", "move-member"]
+
+
+def _run_rigidhist(case, ck):
+    """one RigidCluster object whose pose is read, changed and read again:
+    every sequence of <= 3 (quick) / 4 changes over RIGID_OPS x containers
+    (list, ndarray); after every change the members are where the current
+    spheres, rotation and translation put them"""
+    import itertools
+    import warnings
+    from holopy.scattering import Spheres, Sphere
+    from holopy.scattering.scatterer import RigidCluster
+    depth = 3 if case["tier"] == "quick" else 4
+    acc = []
+
+    def expected(rc):
+        C0 = np.array([np.asarray(s.center, dtype=float)
+                       for s in rc.spheres.scatterers])
+        com = C0.mean(0)
+        rot = [float(a) for a in rc.rotation]
+        tr = np.array([float(a) for a in rc.translation])
+        return com + (C0 - com) @ euler_zyz(*rot).T + tr
+
+    def read(rc, what):
+        G = np.array([s.center for s in rc.scatterers])
+        ref = expected(rc)
+        ck.trans += 1
+        ok = G.shape == ref.shape
+        e = float("inf") if not ok else \
+            float(np.abs(G - ref).max() / max(1.0, np.abs(ref).max()))
+        ck.metric("rigid-history", e if ok else 0.0)
+        ck.true("rigidcluster-pose-history", ok and e <= 1e-11,
+                "RigidCluster after %s: members are not where its current "
+                "spheres, rotation %r and translation %r put them (%.2e)" %
+                (what, list(np.asarray(rc.rotation, dtype=float)),
+                 list(np.asarray(rc.translation, dtype=float)), e))
+        # the other views of the same members
+        ck.true("rigidcluster-pose-history",
+                ok and np.allclose(np.asarray(rc.centers, dtype=float), ref,
+                                   rtol=0, atol=1e-10),
+                "RigidCluster after %s: .centers differ from the members' "
+                "positions" % what)
+        return np.round(G, 8)
+
+    for cont in ("list", "array"):
+        for seq in itertools.chain.from_iterable(
+                itertools.product(RIGID_OPS, repeat=L)
+                for L in range(1, depth + 1)):
+            with warnings.catch_warnings():
+                warnings.simplefilter("ignore")
+                base = Spheres(_mk([0, 1, 2]))
+                mk = list if cont == "list" else \
+                    (lambda v: np.array(v, dtype=float))
+                rc = RigidCluster(base, translation=mk([0.5, -1.0, 2.0]),
+                                  rotation=mk([0.3, 0.7, -0.4]))
+                read(rc, "construction")
+                for k, op in enumerate(seq):
+                    if op == "t-elem":
+                        rc.translation[2] = 5.0 + k
+                    elif op == "t-inplace-add":
+                        if cont == "list":
+                            for q in range(3):
+                                rc.translation[q] += 0.25
+                        else:
+                            rc.translation += 0.25
+                    elif op == "t-assign":
+                        rc.translation = mk([1.0 + k, 2.0, -3.0])
+                    elif op == "r-elem":
+                        rc.rotation[1] = 1.1 + 0.1 * k
+                    elif op == "r-slice":
+                        rc.rotation[:] = [0.2 * (k + 1), 0.9, 1.3]
+                    elif op == "r-assign":
+                        rc.rotation = mk([-0.6, 0.4 + 0.1 * k, 2.0])
+                    elif op == "add-member":
+                        rc.spheres.add(Sphere(n=1.5, r=0.1, center=(
+                            9.0 + k, -7.0, 4.0)))
+                    elif op == "move-member":
+                        m = rc.spheres.scatterers[0]
+                        m.center = np.asarray(m.center, dtype=float) + \
+                            np.array([0.5, 0.0, -0.25])
+                    acc.append(read(rc, "%s (%s pose; step %d of %s)" % (
+                        op, cont, k + 1, ">".join(seq))))
+    return digest(*acc)
+
+
 def _run_single(case, ck):
     """one point, given as three numbers (list, tuple, 1-d array), a (3, 1)
     array, or 2-d coordinate arrays with a scalar z: the result is that of
@@ -826,6 +914,7 @@ def run_case(case):
           "csg": _run_csg,
           "points": _run_points, "angles": _run_angles,
           "composite": _run_composite, "rigid": _run_rigid,
+          "rigidhist": _run_rigidhist,
           "nested": _run_nested, "mixedmag": _run_mixedmag}[case["kind"]](
               case, ck)
     return ck.result(fp=fp)
